@@ -190,10 +190,12 @@ pub fn abs_sub_visible(sub: &Value) -> (Value, Value, bool) {
     let empty = serde_json::Map::new();
     let rv = sub["primary_proof"]["eq_proof"]["revealed_attrs"].as_object().unwrap_or(&empty);
     let revealed = sorted_pairs(rv, |x| x.clone());
-    let preds: Vec<Value> = sub["primary_proof"]["ge_proofs"]
+    let mut preds: Vec<Value> = sub["primary_proof"]["ge_proofs"]
         .as_array()
         .map(|a| a.iter().map(|g| json!({"attr": g["predicate"]["attr_name"], "ty": g["predicate"]["p_type"], "value": g["predicate"]["value"]})).collect())
         .unwrap_or_default();
+    // canonical order (the sub-proof request keeps a set): by (attr, ty, value)
+    preds.sort_by(|a, b| (a["attr"].as_str(), a["ty"].as_str(), a["value"].as_i64()).cmp(&(b["attr"].as_str(), b["ty"].as_str(), b["value"].as_i64())));
     (Value::Array(revealed), Value::Array(preds), !sub["non_revoc_proof"].is_null())
 }
 
